@@ -214,8 +214,10 @@ def gen_cases(rng, tier):
         cases.append({'kind': 'bump', 't': day * DAYUS + tod, 'bump': {'str': '%s%d%s' % (sign, n, u)}})
     # leap days and month ends x month-based units (day-of-month overflow / non-leap targets)
     import calendar as _cal
-    for y in (1904, 1996, 2000, 2096, 2104, 2296):
-        for (m, d) in ((2, 29), (1, 31), (3, 31), (8, 31), (12, 31), (1, 30)):
+    for y in (1900, 1904, 1996, 2000, 2096, 2100, 2104, 2200, 2296):      # century years 1900/2100/2200 are NOT leap
+        for (m, d) in ((2, 29), (1, 31), (3, 31), (8, 31), (12, 31), (1, 30), (1, 29), (3, 30), (3, 29)):
+            if d > _cal.monthrange(y, m)[1]:
+                continue
             t = datetime.date(y, m, d).toordinal() * DAYUS
             for u in 'mqy':
                 for n in (-4, -1, 1, 2, 3, 4, 11, 13):
